@@ -100,8 +100,10 @@ def run(tier, seed):
                 elif not role_ok or not want:
                     if outcome == 'found':
                         violations.append({'name': 'bounded[mdstore-lookup]', 'what': '%s %s %s: got %r, expected nothing' % (e['id'], svc, b, got)})
-                    if outcome == 'unknown' and role_ok is False and False:
-                        pass
+                    if outcome == 'unknown' and role_ok:
+                        # C16: a known entity that lacks the binding is not an unknown entity
+                        violations.append({'name': 'bounded[mdstore-lookup]', 'what': '%s is declared (without %s for %s) but was reported as an unknown entity'
+                                           % (e['id'], b.rsplit(':', 1)[-1], svc)})
                 elif got != want:
                     violations.append({'name': 'bounded[mdstore-lookup]', 'what': '%s %s %s: got %r, expected %r' % (e['id'], svc, b, got, want)})
         for use in ('signing', 'encryption'):
